@@ -189,7 +189,11 @@ class Walker:
         elif isinstance(s, ast.AugAssign):
             t = s.target
             if isinstance(t, ast.Name):
-                if t.id in self.arrayish:
+                o = self.env.get(t.id)
+                # the result of a memoised method is the stored object itself:
+                # `res = self.cached(); res += x` edits it (if it is an array)
+                if t.id in self.arrayish or (o is not None
+                                             and o[0] == "cached"):
                     self.edit(t, s.lineno)
                 else:                  # a number: rebinding, not an edit
                     self.env.pop(t.id, None)
